@@ -2582,16 +2582,13 @@ func (c *compiler) VisitWhileStmt(s *ast.WhileStmt) ast.VisitResult {
 
 // for info on how the generated ir works you might want to see https://llir.github.io/document/user-guide/control/#Loop
 func (c *compiler) VisitForStmt(s *ast.ForStmt) ast.VisitResult {
-	new_IorF_comp := func(ipred enum.IPred, fpred enum.FPred, x value.Value, xType ddpIrType, yi value.Value, yiType ddpIrType, yf value.Value) value.Value {
-		if ddptypes.DeepEqual(s.Initializer.Type, ddptypes.BYTE) {
-			x, yi = c.floatOrByteAsInt(x, xType), c.floatOrByteAsInt(yi, yiType)
+	// the counter, the end value and the step size may be of different numeric types:
+	// if one side is a Kommazahl both are compared as Kommazahlen, otherwise as Zahlen
+	new_IorF_comp := func(ipred enum.IPred, fpred enum.FPred, x value.Value, xType ddpIrType, y value.Value, yType ddpIrType) value.Value {
+		if xType == c.ddpfloattyp || yType == c.ddpfloattyp {
+			return c.cbb.NewFCmp(fpred, c.intOrByteAsFloat(x, xType), c.intOrByteAsFloat(y, yType))
 		}
-
-		if ddptypes.DeepEqual(s.Initializer.Type, ddptypes.KOMMAZAHL) {
-			return c.cbb.NewFCmp(fpred, x, yf)
-		} else {
-			return c.cbb.NewICmp(ipred, x, yi)
-		}
+		return c.cbb.NewICmp(ipred, c.floatOrByteAsInt(x, xType), c.floatOrByteAsInt(y, yType))
 	}
 
 	loopScopeBack, leaveBlockBack, continueBlockBack := c.curLoopScope, c.curLeaveBlock, c.curContinueBlock
@@ -2663,7 +2660,7 @@ func (c *compiler) VisitForStmt(s *ast.ForStmt) ast.VisitResult {
 
 	c.cbb = condBlock
 	// we check the counter differently depending on wether or not we are looping up or down (positive vs negative stepsize)
-	cond := new_IorF_comp(enum.IPredSLT, enum.FPredOLT, incrementer, incrementerType, newInt(0), c.ddpinttyp, constant.NewFloat(ddpfloat, 0.0))
+	cond := new_IorF_comp(enum.IPredSLT, enum.FPredOLT, incrementer, incrementerType, newInt(0), c.ddpinttyp)
 	c.commentNode(c.cbb, s, "")
 	c.cbb.NewCondBr(cond, loopDown, loopUp)
 
@@ -2673,7 +2670,7 @@ func (c *compiler) VisitForStmt(s *ast.ForStmt) ast.VisitResult {
 	// so its temporaries live in their own scope and are freed right after the comparison
 	c.scp = newScope(c.scp)
 	to, toType, _ := c.evaluate(s.To)
-	cond = new_IorF_comp(enum.IPredSLE, enum.FPredOLE, c.cbb.NewLoad(indexTyp.IrType(), indexVar), indexTyp, to, toType, to)
+	cond = new_IorF_comp(enum.IPredSLE, enum.FPredOLE, c.cbb.NewLoad(indexTyp.IrType(), indexVar), indexTyp, to, toType)
 	c.scp = c.exitScope(c.scp)
 	c.commentNode(c.cbb, s, "")
 	c.cbb.NewCondBr(cond, forBody, leaveBlock)
@@ -2682,7 +2679,7 @@ func (c *compiler) VisitForStmt(s *ast.ForStmt) ast.VisitResult {
 	// we are counting down, so compare greater-or-equal
 	c.scp = newScope(c.scp)
 	to, toType, _ = c.evaluate(s.To)
-	cond = new_IorF_comp(enum.IPredSGE, enum.FPredOGE, c.cbb.NewLoad(indexTyp.IrType(), indexVar), indexTyp, to, toType, to)
+	cond = new_IorF_comp(enum.IPredSGE, enum.FPredOGE, c.cbb.NewLoad(indexTyp.IrType(), indexVar), indexTyp, to, toType)
 	c.scp = c.exitScope(c.scp)
 	c.commentNode(c.cbb, s, "")
 	c.cbb.NewCondBr(cond, forBody, leaveBlock)
